@@ -215,12 +215,37 @@ def gen_speciesio(repo, out):
     write_if_changed(os.path.join(out, "GenSpeciesIO.v"), "\n".join(out_lines) + "\n")
 
 
+def gen_mixture(repo, out):
+    t = Translator(os.path.join(repo, "src/minplascalc/mixture.py"), "mixture.py")
+    # `self` is read through T, the species tuple, the composition and the cached E0 / dE: parameters here.
+    # (Which calls refresh those caches, and when, is C03's model; the numerical content is modelled here.)
+    fields = {"T": ("mix_T", "A"), "species": ("mix_species", ("list", "species")),
+              "calculate_composition()": ("mix_nd", ("list", "A")),
+              "__E0": ("mix_E0", ("list", "A")), "__dE": ("mix_dE", ("list", "A"))}
+    obj = ("obj", fields)
+    t.function("LTE.calculate_density",
+               FnCfg("density", [], coq_params="(mix_species : list (species A)) (mix_nd : list A)",
+                     ), self_obj=obj)
+    t.function("LTE.calculate_species_enthalpies",
+               FnCfg("species_enthalpies", [], ret=("list", "A"),
+                     coq_params="(mix_T : A) (mix_species : list (species A)) (mix_nd : list A) (mix_E0 mix_dE : list A)",
+                     calls={("species", "internal_energy"): ("Uint N U", "A", ["A", "A"])}), self_obj=obj)
+    fields2 = dict(fields)
+    fields2["calculate_density()"] = ("(density mix_species mix_nd)", "A")
+    fields2["calculate_species_enthalpies()"] = ("(species_enthalpies mix_T mix_species mix_nd mix_E0 mix_dE)", ("list", "A"))
+    t.function("LTE.calculate_enthalpy",
+               FnCfg("enthalpy", [],
+                     coq_params="(mix_T : A) (mix_species : list (species A)) (mix_nd : list A) (mix_E0 mix_dE : list A)"),
+               self_obj=("obj", fields2))
+    write_if_changed(os.path.join(out, "GenMixture.v"), t.render(HEADER.format(extra=" GenSpecies"), "GenMixture"))
+
+
 def gen_effects(repo, out):
     import effects
     write_if_changed(os.path.join(out, "GenEffects.v"), effects.generate(repo))
 
 
-TARGETS = {"effects": gen_effects, "species": gen_species, "radiation": gen_radiation, "speciesio": gen_speciesio}
+TARGETS = {"mixture": gen_mixture, "effects": gen_effects, "species": gen_species, "radiation": gen_radiation, "speciesio": gen_speciesio}
 FILES = {"effects": "GenEffects.v", "speciesio": "GenSpeciesIO.v", "species": "GenSpecies.v", "radiation": "GenRadiation.v", "mixture": "GenMixture.v", "transport": "GenTransport.v"}
 
 if __name__ == "__main__":
